@@ -9,6 +9,7 @@ of executing functions, the set of finished callers, pool sizes; at the end the 
 from __future__ import annotations
 
 import asyncio
+import concurrent.futures
 import contextvars
 import json
 import queue
@@ -24,8 +25,12 @@ import core
 DRIVERS = [("threads", "Threads")]
 
 OPN = {0: "Scope", 1: "Call", 2: "Resume", 3: "CancelCaller", 4: "Deliver", 5: "StartCall", 6: "FinishCall",
-       7: "CheckCancelledCall", 8: "SetTotal", 9: "ThreadReturn"}
-KINDS = {0: "return", 1: "raise", 2: "StopIteration", 3: "from_thread.run", 4: "from_thread.run_sync", 5: "contextvar"}
+       7: "CheckCancelledCall", 8: "SetTotal", 9: "ThreadReturn", 10: "NativeCancel", 11: "ArmSpawnFail",
+       12: "RunAsyncCall", 13: "SpawnFail"}
+KINDS = {0: "return", 1: "raise", 2: "StopIteration", 3: "from_thread.run", 4: "from_thread.run_sync", 5: "contextvar",
+         6: "propagate check_cancelled", 7: "BaseException"}
+NKINDS = 8
+SPAWN_MSG = "c14: can't start new thread"
 
 STEP_TIMEOUT = 5.0     # a step whose effect does not show within this time is reported as a hang
 GATE_TIMEOUT = 8.0     # a thread function never waits longer than this for its next command
@@ -43,6 +48,14 @@ def plenty() -> bool:
 
 
 class MyErr(Exception):
+    def __init__(self, code):
+        super().__init__(code)
+        self.code = code
+
+
+class MyBase(BaseException):
+    """a BaseException subclass that is not an Exception (and not one asyncio treats specially)"""
+
     def __init__(self, code):
         super().__init__(code)
         self.code = code
@@ -118,8 +131,19 @@ class Run:
         self.batch_started: list = []               # threads on which a function started during the current step
         self.last_on: dict[int, int] = {}           # id(thread) -> last call that ran on it
         self.prev: dict[int, int] = {}              # call -> (previous call on the same worker) + 1, 0 = fresh worker
-        self.lowered = False
         self.cur_total = total if total else DEFAULT_TOTAL
+        self.native: set[int] = set()               # callers hit by a native Task.cancel()
+        self.native_running: set[int] = set()       # ... while their function was executing
+        self.armed: set[int] = set()                # calls whose Thread.start() is made to fail
+        self.spawn_failed: set[int] = set()
+        self.fn_exc: dict[int, BaseException] = {}  # the CancelledError a function let propagate (identity)
+        self.finish_want: dict[int, tuple] = {}     # what run_sync must deliver, decided when the finish command is sent
+        self.rt_expect: dict[int, bool] = {}        # kind 3: must the awaiting round trip be cancelled?
+        self.rt_got: dict[int, object] = {}
+        self.rt_reply: dict[int, tuple] = {}
+        self.rt_task: dict[int, asyncio.Task] = {}
+        self.observations: dict[str, int] = {}      # recorded, not violations
+        self.skipped = 0                            # plan ops that were not enabled
         self.max_live = 0
         self.rt_bad: list[str] = []
         self.tlock = threading.Lock()
@@ -147,7 +171,21 @@ class Run:
                         r = 1
                     self.loop.call_soon_threadsafe(self.on_cc, k, r)
                     continue
-                _, kind, v, may_await = cmd
+                if cmd[0] == "rt":
+                    # from_thread.run() of a coroutine that really waits and then uses checkpoint_if_cancelled-based
+                    # operations: reports whether its task was cancelled
+                    try:
+                        info = from_thread.run(self.probe, k)
+                        rep = (0, info)
+                    except (CancelledError, concurrent.futures.CancelledError):
+                        # task_wrapper raises concurrent.futures.CancelledError, which asyncio's future chaining converts
+                        # back into asyncio.CancelledError (a BaseException) for the waiting thread
+                        rep = (1, None)
+                    except BaseException as e:  # noqa: BLE001
+                        rep = (2, repr(e))
+                    self.loop.call_soon_threadsafe(self.on_rt, k, rep)
+                    continue
+                _, kind, v = cmd
                 if kind == 0:
                     return v
                 if kind == 1:
@@ -155,9 +193,12 @@ class Run:
                 if kind == 2:
                     raise StopIteration(v)
                 if kind == 3:
-                    got = from_thread.run(self.acoro, v, may_await)
-                    if got != 2 * v + 1:
-                        self.rt_bad.append(f"from_thread.run returned {got!r} instead of {2 * v + 1} in function {k}")
+                    # the coroutine ALWAYS waits; whether the round trip returns or is cancelled is a function of the
+                    # handed scope chain (theorem C14_from_thread_run_spec), judged by final_monitors
+                    try:
+                        self.rt_got[k] = from_thread.run(self.acoro, v)
+                    except (CancelledError, concurrent.futures.CancelledError):
+                        self.rt_got[k] = "cancelled"
                     return v
                 if kind == 4:
                     got = from_thread.run_sync(self.sfunc, v)
@@ -170,15 +211,43 @@ class Run:
                         self.rt_bad.append(f"contextvar in thread of call {k}: {got!r} instead of {1000 + k}")
                         return 7777
                     return v
+                if kind == 6:
+                    # the documented idiom: let check_cancelled()'s exception propagate out of the function
+                    try:
+                        from_thread.check_cancelled()
+                    except CancelledError as e:
+                        self.fn_exc[k] = e
+                        raise
+                    return v
+                if kind == 7:
+                    raise MyBase(v)
                 raise AssertionError(kind)
         finally:
             with self.tlock:
                 self.texec.discard(k)
 
-    async def acoro(self, v, may_await):
-        if may_await:
+    async def acoro(self, v):
+        for _ in range(3):
             await asyncio.sleep(0)
         return 2 * v + 1
+
+    async def probe(self, k):
+        import anyio
+        from anyio.lowlevel import checkpoint_if_cancelled
+
+        self.rt_task[k] = asyncio.current_task()
+        info = {"pending": anyio.get_current_task().has_pending_cancellation()}
+        for _ in range(3):                 # real suspensions: a pending cancellation is delivered within 2 cycles
+            await asyncio.sleep(0)
+        lock = anyio.Lock()                # built on checkpoint_if_cancelled(): must neither spin nor block (F42)
+        await lock.acquire()
+        lock.release()
+        await checkpoint_if_cancelled()
+        info["completed"] = True
+        return info
+
+    def on_rt(self, k, rep):
+        self.rt_reply[k] = rep
 
     def sfunc(self, v):
         return (3 * v + 2, threading.get_ident())
@@ -196,29 +265,53 @@ class Run:
         for j, t2 in self.started.items():
             if j != k and t2 is th and j not in self.landed and j in self.texec:
                 self.mon.append(f"worker #{self.thread_index[id(th)]} handed call {k} while call {j} executes on it")
-        # monitor: the function runs while its caller holds a token
+        # monitor: the function runs while its caller holds a token.  The only legitimate way for a function to start
+        # after its caller is gone is the early-cancel race of an abandon_on_cancel=True call (the worker dequeues the
+        # item before the future is cancelled: ThreadStart -> WExec in the model) or a native cancellation of the caller
         t = self.task.get(k)
         if t is not None and not t.done() and t not in self.lim.statistics().borrowers:
             self.mon.append(f"function {k} started although its caller holds no limiter token")
+        if t is not None and t.done() and not (self.abandon[k] or k in self.native):
+            self.mon.append(f"function {k} started after its caller (abandon_on_cancel=False, not natively cancelled) ended")
         self.check_bound()
 
     def on_cc(self, k, r):
         self.cc_reply[k] = r
 
+    def executing(self):
+        """functions whose body is running in a thread right now (signalled start, thread-side not yet returned) - also
+        while they are inside a from_thread round trip after the finish command was sent"""
+        return [k for k in self.started if k in self.texec and k not in self.landed]
+
     def live_exec(self):
-        """functions executing whose caller still waits for them (= not abandoned)"""
-        return [k for k in self.started if k not in self.finish_sent and not self.task[k].done()]
+        """... whose caller still waits for them (= not abandoned, not torn away)"""
+        return [k for k in self.executing() if not self.task[k].done()]
 
     def check_bound(self):
         live = self.live_exec()
         self.max_live = max(self.max_live, len(live))
-        if not self.lowered and len(live) > self.lim.total_tokens:
-            self.mon.append(f"{len(live)} non-abandoned functions execute concurrently with total_tokens="
-                            f"{self.lim.total_tokens}: calls {sorted(live)}")
-        borrowers = self.lim.statistics().borrowers
+        st = self.lim.statistics()
+        borrowers, total = st.borrowers, st.total_tokens
+        overfull = len(borrowers) > total     # only possible after total_tokens was lowered below the number of borrowers
+        if not overfull and len(live) > total:
+            self.mon.append(f"{len(live)} non-abandoned functions execute concurrently with total_tokens={total}, "
+                            f"borrowed={len(borrowers)}: calls {sorted(live)}")
         for k in live:
             if self.task[k] not in borrowers:
                 self.mon.append(f"function {k} executes (not abandoned) but its caller holds no token")
+        # strong reading: functions of abandon_on_cancel=False calls, whatever happened to their callers
+        na = [k for k in self.executing() if not self.abandon[k]]
+        na_unexplained = [k for k in na if k not in self.native_running]
+        if not overfull and len(na_unexplained) > total:
+            self.mon.append(f"over-grant: {len(na_unexplained)} functions of abandon_on_cancel=False calls execute with "
+                            f"total_tokens={total} and no native cancellation explains it: calls {sorted(na_unexplained)}")
+        elif not overfull and len(na) > total:
+            # documented scope (DESIGN 11.4, theorem C14_native_cancel_defeats_non_abandon): recorded, not a violation
+            self.observe_fact("native_cancel_defeats_non_abandon")
+
+    def observe_fact(self, name):
+        self.observations[name] = self.observations.get(name, 0) + 1
+        self.flags.add("obs_" + name)
 
     # ------------------------------------------------------------------ caller
     async def caller(self, c: int):
@@ -234,14 +327,25 @@ class Run:
                     v = await to_thread.run_sync(self.fn, c, abandon_on_cancel=self.abandon[c],
                                                  limiter=self.lim if self.total else None)
                     self.outcome[c] = (0, v)
-                except CancelledError:
-                    self.outcome[c] = (2, 0)
+                except CancelledError as e:
+                    # (5,0): the very CancelledError object the thread function raised; (2,0): a cancellation
+                    self.outcome[c] = (5, 0) if e is self.fn_exc.get(c) else (2, 0)
+                    if self.outcome[c] == (5, 0):
+                        self.on_returned(c)
                     raise
                 except MyErr as e:
                     self.outcome[c] = (3, e.code)
+                except MyBase as e:
+                    self.outcome[c] = (6, e.code)
                 except RuntimeError as e:
+                    # StopIteration cannot be raised into a Future (PEP 479): _report_result wraps it in RuntimeError.
+                    # This is a deliberate deviation from "raises exactly the exception of the function" (audit M1).
                     ok = isinstance(e.__cause__, StopIteration) and "StopIteration" in str(e)
-                    self.outcome[c] = (4, 0) if ok else (8, 0)
+                    if str(e) == SPAWN_MSG:
+                        self.outcome[c] = (9, 0)
+                        self.spawn_failed.add(c)
+                    else:
+                        self.outcome[c] = (4, 0) if ok else (8, 0)
                 except BaseException as e:  # noqa: BLE001
                     self.outcome[c] = (8, 0)
                     self.mon.append(f"call {c}: unexpected exception {e!r}")
@@ -256,7 +360,14 @@ class Run:
             pass
 
     def on_returned(self, c):
-        """run_sync returned or raised the function's exception"""
+        """run_sync returned or raised the function's exception (or failed to start a thread)"""
+        if c in self.spawn_failed:
+            if c in self.started:
+                self.mon.append(f"call {c}: thread start failed but its function ran")
+            return
+        if c not in self.started:
+            self.mon.append(f"call {c}: run_sync returned {self.outcome[c]} but its function was never run")
+            return
         if c not in self.finish_sent:
             self.mon.append(f"call {c}: run_sync returned {self.outcome[c]} before its function finished")
         self.landed.add(c)
@@ -360,6 +471,7 @@ class Run:
             raise Hang(f"op {(OPN.get(code), a, b)} is not enabled here")
         rc, rv = 5, 0
         self.current_op = (code, a, b, d)
+        b0 = set(self.lim.statistics().borrowers)
         if code == 0:
             self.shields.setdefault(a, []).insert(0, bool(b))
             self.cc.setdefault(a, []).insert(0, False)
@@ -387,11 +499,18 @@ class Run:
             elif not before:
                 self.flags.add("cancel_hidden_by_shield")
         elif code == 6:
-            may_await = 0 if walk(self.chain_of(a)) else 1
+            cancelled_now = walk(self.chain_of(a))
+            inside = not self.task[a].done()
             self.finish_sent[a] = (b, d)
-            if self.task[a].done():
+            # what run_sync has to deliver to a caller that is still there (model-independent expectation)
+            self.finish_want[a] = {1: (3, d), 2: (4, 0), 7: (6, d)}.get(b, (0, d))
+            if b == 6 and cancelled_now:
+                self.finish_want[a] = (5, 0)        # check_cancelled raises for abandon on and off (walk of the chain)
+            if b == 3:
+                self.rt_expect[a] = walk(self.visible_handed(a, inside))
+            if not inside:
                 self.flags.add("finish_abandoned")
-            self.cmdq[a].put(("fin", b, d, may_await))
+            self.cmdq[a].put(("fin", b, d))
         elif code == 7:
             self.cc_reply.pop(a, None)
             self.cmdq[a].put(("cc",))
@@ -405,28 +524,94 @@ class Run:
             if rv and not self.abandon[a]:
                 self.flags.add("cc_true_shielded")
         elif code == 8:
-            if a < self.cur_total:
-                self.lowered = True
+            if a < len(b0):
+                self.flags.add("lowered_below_borrowed")
             self.cur_total = a
             self.lim.total_tokens = a
             self.flags.add("set_total")
+        elif code == 10:
+            running = a in self.started and a not in self.finish_sent
+            self.native.add(a)
+            if running:
+                self.native_running.add(a)
+                self.flags.add("native_cancel_running_abandon" if self.abandon[a] else "native_cancel_running_non_abandon")
+            else:
+                self.flags.add("native_cancel_waiting_limiter")
+            self.task[a].cancel()
+        elif code == 11:
+            self.armed.add(a)
+            self.shields.setdefault(a, []); self.cc.setdefault(a, []); self.scopes.setdefault(a, [])
+        elif code == 12:
+            inside = not self.task[a].done()
+            want = 1 if walk(self.visible_handed(a, inside)) else 0
+            self.rt_reply.pop(a, None)
+            self.cmdq[a].put(("rt",))
+            try:
+                await self.until(lambda: a in self.rt_reply, f"from_thread.run() called by function {a} never returned "
+                                                             f"(its coroutine spins or blocks)")
+            except Hang:
+                t = self.rt_task.get(a)
+                if t is not None:
+                    t.cancel()
+                raise
+            got, info = self.rt_reply[a]
+            rc, rv = 7, got
+            if got == 2:
+                self.mon.append(f"from_thread.run() in function {a} raised {info}")
+            elif got != want:
+                self.mon.append(f"from_thread.run(awaiting coroutine) in the thread of call {a} (abandon={self.abandon[a]}, "
+                                f"caller {'inside' if inside else 'gone'}) was {'cancelled' if got else 'not cancelled'} but the "
+                                f"scopes visible from the handed scope {self.visible_handed(a, inside)} say "
+                                f"{'cancelled' if want else 'not cancelled'}")
+            elif got == 0 and info.get("pending"):
+                self.mon.append(f"from_thread.run() task of call {a} reported has_pending_cancellation()=True but was never "
+                                f"interrupted (F42 inconsistency)")
+            self.flags.add("rt_cancelled" if got else "rt_completed")
+            if not inside and self.abandon[a] and walk(self.chain_of(a)) and got == 0:
+                # check_cancelled() (plain _parent_scope walk) would raise here, the round trip is not cancelled
+                self.flags.add("rt_after_abandon_not_cancelled")
+                self.observe_fact("abandoned_thread_check_cancelled_raises_but_from_thread_run_is_not_cancelled")
         else:
             raise AssertionError(code)
         await self.quiesce()
         obs = self.observe(rc, rv)
         self.ops += [code, a, b, d]
         self.outs += obs
+        st = self.lim.statistics()
+        b1 = set(st.borrowers)
+        if st.total_tokens < len(b0) and (b1 - b0):
+            self.mon.append(f"grant while over-full: total_tokens={st.total_tokens} < {len(b0)} borrowers before the step, "
+                            f"yet {len(b1 - b0)} new borrower(s) appeared")
+        if st.total_tokens <= len(b0) and len(b1) > len(b0):
+            self.mon.append(f"grant while full: total_tokens={st.total_tokens}, borrowers went from {len(b0)} to {len(b1)}")
         self.step_monitors(obs)
+
+    def visible_handed(self, c, inside):
+        """[(cancel_called, shield)] from the scope handed to the worker through its VISIBLE ancestors: the call scope
+        itself (never cancelled, shield = not abandon) when abandon or when the caller has no enclosing scope, else the
+        enclosing scope; an exited scope has no visible ancestors (fix 1940035)."""
+        chain = self.chain_of(c)
+        handed = ([(False, not self.abandon[c])] + chain) if (self.abandon[c] or not chain) else chain
+        return handed if inside else handed[:1]
 
     def step_monitors(self, obs):
         self.check_bound()
         if obs[3] > 0:
             self.flags.add("limiter_wait")
-        # no cancellation before the function finished unless abandon
+        # no cancellation before the function finished unless abandon_on_cancel=True AND a visible scope was cancelled -
+        # or the caller was cancelled natively (documented scope, recorded as an observation)
         for c, t in self.task.items():
-            if t.done() and c in self.started and c not in self.finish_sent and not self.abandon[c]:
+            if not (t.done() and c in self.started and c not in self.finish_sent):
+                continue
+            if c in self.native_running:
+                if not self.abandon[c]:
+                    self.observe_fact("native_cancel_interrupts_non_abandon_call")
+            elif not self.abandon[c]:
                 self.mon.append(f"caller {c} (abandon_on_cancel=False) finished while its function still executes")
-            if t.done() and c in self.started and c not in self.finish_sent and self.abandon[c]:
+            elif c not in self.cancel_before_finish:
+                self.mon.append(f"caller {c} (abandon_on_cancel=True) finished while its function still executes although "
+                                f"no scope visible to it was cancelled")
+            else:
                 self.flags.add("abandoned_running")
         # tokens = callers between acquire and release: a finished caller holds none
         borrowers = self.lim.statistics().borrowers
@@ -444,6 +629,8 @@ class Run:
             if len(self.shields.get(nxt, [])) < 3:
                 en += [(0, nxt, 0, 0), (0, nxt, 1, 0)]
             en += [(1, nxt, 0, 0), (1, nxt, 1, 0)]
+            if nxt not in self.armed:
+                en.append((11, nxt, 0, 0))
             for i in range(len(self.shields.get(nxt, []))):
                 if not self.cc[nxt][i]:
                     en.append((3, nxt, i, 0))
@@ -452,9 +639,12 @@ class Run:
                 for i in range(len(self.shields[c])):
                     if not self.cc[c][i]:
                         en.append((3, c, i, 0))
+            if not t.done() and c not in self.native and (c not in self.started or c not in self.finish_sent):
+                en.append((10, c, 0, 0))
             if c in self.started and c not in self.finish_sent:
                 en.append((7, c, 0, 0))
-                for kind in range(6):
+                en.append((12, c, 0, 0))
+                for kind in range(NKINDS):
                     en.append((6, c, kind, 0))
         if self.total:
             for n in range(0, 5):
@@ -505,7 +695,7 @@ class Run:
             # never leave a thread or a task behind
             for k, q in self.cmdq.items():
                 if k not in self.finish_sent:
-                    q.put(("fin", 0, 0, 0))
+                    q.put(("fin", 0, 0))
             if self.hang:
                 for t in self.task.values():
                     t.cancel()
@@ -544,37 +734,79 @@ class Run:
                 continue
             k, v = self.outcome[c]
             effective = walk(self.chain_of(c))
+            if c in self.spawn_failed or c in self.armed and k == 9:
+                # Thread.start() failed: RuntimeError out of run_sync, nothing run, the caller goes on
+                if c in self.started:
+                    self.mon.append(f"call {c}: thread start failed but its function ran")
+                if self.post.get(c, 0) != (1 if effective else 0):
+                    self.mon.append(f"call {c} (thread start failed): checkpoint after the call cancelled={self.post.get(c)} "
+                                    f"but the caller's scopes are {'cancelled' if effective else 'not cancelled'}")
+                self.flags.add("spawn_failed")
+                continue
+            if c in self.native:
+                # native Task.cancel(): the caller ends with CancelledError whatever abandon_on_cancel says; a result
+                # that arrives (or had arrived but was not consumed yet) is dropped.  Documented scope, DESIGN 11.4.
+                if k != 2:
+                    self.mon.append(f"call {c} was natively cancelled but run_sync delivered {(k, v)}")
+                if c in self.finish_sent:
+                    self.flags.add("result_dropped_native")
+                continue
             if c in self.finish_sent:
                 kind, val = self.finish_sent[c]
-                want = {1: (3, val), 2: (4, 0)}.get(kind, (0, val))
-                if k == 2:
+                want = self.finish_want[c]
+                dropped_ok = self.abandon[c] and c in self.cancel_before_finish
+                if dropped_ok:
+                    # abandon_on_cancel=True and a visible scope was cancelled while the function ran: at the settled points
+                    # of a script the future is cancelled at once, so the caller MUST have ended cancelled (the "either
+                    # outcome" of the dequeue race exists only in the monitor-only early-cancel scenario, which has no
+                    # finish command after the cancellation)
+                    if k == 2:
+                        self.flags.add("result_dropped_abandoned")
+                    elif self.racy is None:
+                        self.mon.append(f"call {c} (abandon_on_cancel=True) was cancelled while its function ran but "
+                                        f"run_sync still delivered {(k, v)}")
+                elif k == 2:
                     if not self.abandon[c]:
                         self.mon.append(f"call {c} (abandon_on_cancel=False) ended cancelled: the result of its function "
                                         f"({KINDS[kind]} {val}) was dropped")
-                    elif c not in self.cancel_before_finish:
+                    else:
                         self.mon.append(f"call {c} (abandon_on_cancel=True) ended cancelled although its function "
                                         f"finished with {KINDS[kind]} {val} and no cancellation preceded the finish")
-                    else:
-                        self.flags.add("result_dropped_abandoned")
                 elif (k, v) != want:
-                    self.mon.append(f"call {c}: function finished with {KINDS[kind]} {val} but run_sync delivered {(k, v)}")
+                    self.mon.append(f"call {c}: function finished with {KINDS[kind]} {val} but run_sync delivered {(k, v)} "
+                                    f"instead of {want}")
                 else:
                     self.flags.add("result_" + KINDS[kind])
+                    if k == 5:
+                        self.flags.add("function_cancellederror_propagated")
                     if not self.abandon[c] and c in self.cancel_before_finish:
                         self.flags.add("deferred_cancel_result_returned")
-                        if self.post.get(c) != 1:
+                        if k != 5 and self.post.get(c) != 1:
                             self.mon.append(f"call {c}: cancellation requested during the shielded call was not "
                                             f"delivered at the caller's next checkpoint")
-                if k != 2 and self.post.get(c, 0) != (1 if effective else 0):
+                # k == 5: the function's own CancelledError propagates like a cancellation, no checkpoint is reached
+                if k not in (2, 5) and self.post.get(c, 0) != (1 if effective else 0):
                     self.mon.append(f"call {c}: checkpoint after the call cancelled={self.post.get(c)} but the "
                                     f"caller's scopes are {'cancelled' if effective else 'not cancelled'}")
+                if kind == 3:
+                    exp = self.rt_expect[c]
+                    got = self.rt_got.get(c)
+                    if exp and got != "cancelled":
+                        self.mon.append(f"from_thread.run(awaiting coroutine) in function {c} returned {got!r} although the "
+                                        f"scopes visible from the handed scope are cancelled")
+                    elif not exp and got != 2 * val + 1:
+                        self.mon.append(f"from_thread.run(awaiting coroutine) in function {c} gave {got!r} instead of "
+                                        f"{2 * val + 1} (handed scope not cancelled)")
+                    else:
+                        self.flags.add("rt_in_finish_cancelled" if exp else "rt_in_finish_value")
             else:
                 if k != 2:
                     self.mon.append(f"call {c} delivered {(k, v)} but its function never finished")
                 elif not effective:
                     self.mon.append(f"call {c} ended cancelled but no visible scope was cancelled")
                 elif c in self.started:
-                    pass  # abandoned while running, function finished by the cleanup: has finish_sent; unreachable
+                    # a started function always gets a finish command (script or cleanup) before the run ends
+                    self.mon.append(f"call {c}: its function started, never got a finish command, yet the run ended")
                 else:
                     self.flags.add("cancelled_before_start")
         self.mon += self.rt_bad
@@ -591,12 +823,25 @@ class Run:
         from anyio._backends import _asyncio as A
 
         old = A.WorkerThread.MAX_IDLE_TIME
+        old_start = A.WorkerThread.start
+        run = self
+
+        def start(worker, *a, **kw):
+            # per-call "Thread.start() fails" (harness-side patch of the class attribute, nothing in /repo is touched)
+            cur = asyncio.current_task()
+            for c in run.armed:
+                if run.task.get(c) is cur:
+                    raise RuntimeError(SPAWN_MSG)
+            return old_start(worker, *a, **kw)
+
         if self.prune:
             A.WorkerThread.MAX_IDLE_TIME = 0
+        A.WorkerThread.start = start
         try:
             anyio.run(self.main, backend_options={"use_uvloop": self.uv})
         finally:
             A.WorkerThread.MAX_IDLE_TIME = old
+            A.WorkerThread.start = old_start
         self.outs += self.final_obs()
         if self.mon or self.hang or self.leak:
             FAILED.append(self)
@@ -643,9 +888,13 @@ def random_chooser(rng: random.Random, nsteps: int, profile: dict):
             if code == 1 and len(r.live_exec()) >= r.cur_total:
                 w *= 1.5          # more calls than tokens
             if code == 6:
-                w /= 6.0          # six kinds
+                w /= float(NKINDS)
+                if b == 6 and walk(r.chain_of(a)):
+                    w *= 3.0
             if code == 8:
                 w /= 4.0
+            if code == 12 and (r.task[a].done() or walk(r.chain_of(a))):
+                w *= 3.0
             ws.append(w)
         if sum(ws) <= 0:
             return None
@@ -662,7 +911,8 @@ def random_run(rng: random.Random, uv: bool) -> Run:
     prune = rng.random() < 0.2
     ncalls = rng.choice([2, 3, 4, 5, 6])
     profile = {0: rng.choice([0.5, 1.5]), 1: 3.0, 3: rng.choice([0.7, 2.0]), 6: rng.choice([1.5, 3.0]),
-               7: 1.2, 8: rng.choice([0.0, 0.0, 0.5])}
+               7: 1.2, 8: rng.choice([0.0, 0.0, 0.5]), 10: rng.choice([0.0, 0.3, 0.8]), 11: rng.choice([0.0, 0.3]),
+               12: rng.choice([0.5, 1.2])}
     r = Run(total, prune, uv, ncalls, chooser=random_chooser(rng, rng.choice([6, 10, 14, 20, 28]), profile))
     return r.execute()
 
@@ -677,6 +927,8 @@ def plan_chooser(plan):
         for (c, a, b, d) in it:
             if (c, a, b) in keys:
                 return (c, a, b, d)
+            r.skipped += 1        # counted and reported in the evidence (plans are deliberately over-approximate)
+            keys = {(c2, a2, b2) for (c2, a2, b2, d2) in r.enabled()}
         return None
 
     return choose
@@ -712,6 +964,32 @@ def directed_plans():
         p.append((7, second, 0, 0))
         p.append((6, second, next(kinds), 21 + second))
         plans.append((total, p))
+    # exit paths and payloads added after the audit (section 4.2): thread start failure, native cancellation in the wait
+    # queue / while running, the function's own CancelledError, BaseException, from_thread.run under every handed chain,
+    # the abandoned thread calling from_thread.run (F42 on the thread boundary)
+    for total, ab0, ab1, variant in itertools.product((1, 2), (0, 1), (0, 1), range(8)):
+        if variant == 0:      # thread start fails for the first call; the second one must still work
+            p = [(11, 0, 0, 0), (0, 0, 0, 0), (1, 0, ab0, 0), (1, 1, ab1, 0), (12, 1, 0, 0), (6, 1, 3, 7)]
+        elif variant == 1:    # ... for the second call (only if it needs a new thread)
+            p = [(1, 0, ab0, 0), (11, 1, 0, 0), (1, 1, ab1, 0), (6, 0, 0, 1), (6, 1, 1, 2)]
+        elif variant == 2:    # native cancel of a running call, then a further call under the same limiter
+            p = [(0, 0, 0, 0), (1, 0, ab0, 0), (1, 1, ab1, 0), (10, 0, 0, 0), (12, 0, 0, 0), (7, 0, 0, 0), (0, 2, 0, 0),
+                 (1, 2, 0, 0), (6, 0, 3, 4), (6, 1, 0, 5), (6, 2, 4, 6)]
+        elif variant == 3:    # native cancel while waiting for the limiter (total=1) / running (total=2)
+            p = [(1, 0, ab0, 0), (1, 1, ab1, 0), (10, 1, 0, 0), (6, 0, 7, 3), (6, 1, 0, 4)]
+        elif variant == 4:    # F42: the caller is cancelled away, then the thread calls from_thread.run / check_cancelled
+            p = [(0, 0, 0, 0), (1, 0, ab0, 0), (12, 0, 0, 0), (3, 0, 0, 0), (12, 0, 0, 0), (7, 0, 0, 0), (6, 0, 3, 9),
+                 (1, 1, ab1, 0), (6, 1, 6, 2)]
+        elif variant == 5:    # the function lets check_cancelled()'s CancelledError propagate, with and without cancellation
+            p = [(0, 0, 1, 0), (0, 0, 0, 0), (1, 0, ab0, 0), (0, 1, 0, 0), (1, 1, ab1, 0), (3, 0, 0, 0), (6, 0, 6, 8),
+                 (6, 1, 6, 9)]
+        elif variant == 6:    # cancelled scope hidden by an inner shield: round trip and check_cancelled both unaffected
+            p = [(0, 0, 0, 0), (0, 0, 1, 0), (1, 0, ab0, 0), (3, 0, 1, 0), (12, 0, 0, 0), (7, 0, 0, 0), (6, 0, 3, 3),
+                 (1, 1, ab1, 0), (6, 1, 7, 1)]
+        else:                 # lower the total below the number of borrowers: nothing new may start until the excess drained
+            p = [(1, 0, ab0, 0), (1, 1, ab1, 0), (1, 2, 0, 0), (8, 0, 0, 0), (1, 3, 0, 0), (6, 0, 0, 1), (8, 1, 0, 0),
+                 (6, 1, 0, 2), (6, 2, 0, 3), (6, 3, 0, 4)]
+        plans.append((total, p))
     return plans
 
 
@@ -724,9 +1002,12 @@ def exhaustive_runs(total: int, ncalls: int, depth: int, uv: bool, budget: int):
         c, a, b, d = o
         if c == 0:
             return len(r.shields.get(a, [])) < 1 and b == 0
+        # restricted alphabet (stated in the evidence as `exhaustive_alphabet`): at most one enclosing scope, unshielded;
+        # finish kinds return / raise / propagate-check_cancelled; no total_tokens changes, no armed start failure, no
+        # RunAsync (those are covered by the directed family and the random walks)
         if c == 6:
-            return b in (0, 1)
-        if c == 8:
+            return b in (0, 1, 6)
+        if c in (8, 11, 12):
             return False
         return True
 
@@ -769,8 +1050,9 @@ def racy_early_cancel(n: int, abandon: bool):
             r.scopes[c] = [anyio.CancelScope()]
             r.abandon[c] = abandon
             r.cmdq[c] = queue.Queue()
-            r.cmdq[c].put(("fin", 0, 100 + c, 0))       # the function returns at once if it ever starts
+            r.cmdq[c].put(("fin", 0, 100 + c))          # the function returns at once if it ever starts
             r.finish_sent[c] = (0, 100 + c)
+            r.finish_want[c] = (0, 100 + c)
             r.task[c] = asyncio.create_task(r.caller(c))
             for _ in range(2):                              # caller: checkpoint(); acquire -> shielded yield
                 await asyncio.sleep(0)
@@ -802,6 +1084,45 @@ def racy_early_cancel(n: int, abandon: bool):
                      "history": "per call: caller task started in a fresh CancelScope; after two loop cycles (caller in the "
                                 "limiter's shielded checkpoint) the scope is cancelled; the thread function, if it starts at "
                                 "all, returns at once"}
+    return scenario
+
+
+def racy_early_native_cancel(n: int):
+    """Native Task.cancel() while the caller sits in the limiter's shielded checkpoint (token held, call scope not yet
+    entered; model: NativeCancel in PLimYield).  Deterministic on the loop side: CancelledError out of run_sync, the token
+    is given back by `except BaseException: release_on_behalf_of`, no item is ever queued, no function runs."""
+
+    async def scenario(r: Run):
+        for c in range(n):
+            r.shields[c] = []; r.cc[c] = []; r.scopes[c] = []
+            r.abandon[c] = bool(c % 2)
+            r.cmdq[c] = queue.Queue()
+            r.cmdq[c].put(("fin", 0, 100 + c))
+            r.task[c] = asyncio.create_task(r.caller(c))
+            for _ in range(2):                              # caller: checkpoint(); acquire -> shielded yield
+                await asyncio.sleep(0)
+            if r.lim.borrowed_tokens != 1:
+                r.mon.append(f"early native cancel {c}: expected the caller to hold its token in the shielded checkpoint, "
+                             f"borrowed_tokens={r.lim.borrowed_tokens}")
+            r.native.add(c)
+            r.task[c].cancel()
+            await r.until(r.task[c].done, f"natively cancelled caller {c} never finished")
+            for _ in range(3):
+                await asyncio.sleep(0)
+            if r.lim.borrowed_tokens != 0:
+                r.mon.append(f"early native cancel {c}: borrowed_tokens={r.lim.borrowed_tokens} after the caller ended")
+            if r.outcome.get(c) != (2, 0):
+                r.mon.append(f"early native cancel {c}: outcome {r.outcome.get(c)} instead of CancelledError")
+            if c in r.started or c in r.texec:
+                r.mon.append(f"early native cancel {c}: the function ran although the caller never entered the call scope")
+            r.flags.add("native_cancel_in_limiter_checkpoint")
+        ws, idle = r.pool()
+        if len(ws) != 0:
+            r.mon.append(f"early native cancel: {len(ws)} worker threads were created although no call entered the call scope")
+
+    scenario.desc = {"scenario": "racy_early_native_cancel", "n": n,
+                     "history": "per call: caller task started; after two loop cycles (caller in the limiter's shielded "
+                                "checkpoint, token held) Task.cancel()"}
     return scenario
 
 
@@ -850,12 +1171,23 @@ def check(tier: str) -> int:
         "caller's chain of (cancel_called, shield) flags; cancellation reaches a caller suspended in sleep(0) when it resumes "
         "(FIFO loops: the _deliver_cancellation retry precedes the task's step)",
         "not exhibited by the model, exercised here with REAL threads and monitors only: preemptive interleavings inside the "
-        "thread function, the GIL, queue.Queue/call_soon_threadsafe delivery, context-variable copying, from_thread.run / "
-        "from_thread.run_sync round trips, the race 'worker dequeues the item' vs 'future cancelled' (abandon_on_cancel=True, "
+        "thread function, the GIL, queue.Queue/call_soon_threadsafe delivery, context-variable copying, the VALUES of "
+        "from_thread.run / from_thread.run_sync round trips (whether an awaiting from_thread.run is cancelled IS modelled: "
+        "ThreadRunAsync, C14_from_thread_run_spec), the race 'worker dequeues the item' vs 'future cancelled' (abandon_on_cancel=True, "
         "early cancel; both outcomes are in the model: ThreadStart -> WExec or WSkip/ThreadReturn, only the choice is the runtime's), idle-worker pruning by wall-clock age (only MAX_IDLE_TIME=0 'prune everything' is modelled), "
         "worker shutdown at the end of the root task",
         "real threads are not steppable: each script step waits for a definite effect (function signalled start / caller done / "
         "worker back in the idle deque) with a 5 s timeout; a timeout is reported as a failure, never waited out",
+    ]
+    rep.assumptions += [
+        "documented scope (DESIGN 11.4): AnyIO shields do not stop a native Task.cancel().  The model has the op NativeCancel; "
+        "the strong bound 'functions of abandon_on_cancel=False calls <= total' is proved under the boolean hypothesis "
+        "no_native_cancel_while_running and refuted without it (C14_native_cancel_defeats_non_abandon); the harness generates "
+        "it on real threads and records it as observation native_cancel_defeats_non_abandon - every over-grant that is not "
+        "explained by a native cancellation of that very caller while its function ran is a VIOLATION",
+        "the limiter bound is checked without any sticky exemption: whenever borrowed_tokens <= total_tokens at the time of "
+        "the check, executing non-abandoned functions must be <= total_tokens; a step that starts with more borrowers than "
+        "the new total must not add a borrower (C14_no_grant_while_full)",
     ]
     proofs_ok = core.proof_stage(rep, "props/C14.v")
     exe = core.build_driver("threads", "Threads")
@@ -872,6 +1204,10 @@ def check(tier: str) -> int:
             n_corpus += 1
             if "model_raw_case" in c:
                 model_only.append((f.name, c["model_raw_case"], c["model_expected"]))
+            if c.get("kind") == "racy_early_native_cancel":
+                for uv in (False, True):
+                    racy.append(Run(1, False, uv, 0, racy=racy_early_native_cancel(c["n"])).execute())
+                continue
             if c.get("kind") == "racy_early_cancel":
                 for uv in (False, True):
                     racy.append(Run(2, False, uv, 0, racy=racy_early_cancel(c["n"], bool(c["abandon"]))).execute())
@@ -880,6 +1216,8 @@ def check(tier: str) -> int:
             # ops the (unchanged) implementation does not enable at that point are skipped, cf. plan_chooser
             runs.append(Run(c["total"], bool(c["prune"]), bool(c.get("uvloop")), c["ncalls"],
                             chooser=plan_chooser(plan)).execute())
+            if runs[-1].skipped and not c["what"].startswith("kills mutant"):
+                rep.notes.append(f"corpus {f.name}: {runs[-1].skipped} op(s) were not enabled and skipped")
     # directed family (small scope, all combinations)
     plans = directed_plans()
     if tier == "quick":
@@ -887,7 +1225,7 @@ def check(tier: str) -> int:
     for i, (total, p) in enumerate(plans):
         if plenty():
             break
-        runs.append(Run(total, False, i % 8 == 0, 2, chooser=plan_chooser(p)).execute())
+        runs.append(Run(total, False, i % 8 == 0, 4, chooser=plan_chooser(p)).execute())
     n_directed = len(plans)
     # random walks
     n_random = 600 if tier == "quick" else 7000
@@ -897,9 +1235,9 @@ def check(tier: str) -> int:
         runs.append(random_run(rng, uv=(i % 6 == 0)))
     # exhaustive small scope by replay
     if tier == "quick":
-        ex_spec = [(1, 2, 4, False, 700)]
+        ex_spec = [(1, 2, 3, False, 700)]
     else:
-        ex_spec = [(1, 2, 6, False, 6000), (2, 2, 5, True, 2500)]
+        ex_spec = [(1, 2, 5, False, 9000), (2, 2, 4, True, 3000)]
     ex = []
     ex_truncated = False
     for (tot_, nc_, depth_, uv_, budget_) in ex_spec:
@@ -912,6 +1250,7 @@ def check(tier: str) -> int:
     for uv in ((False, True) if not plenty() else ()):
         racy.append(Run(2, False, uv, 0, racy=racy_early_cancel(12 if tier == "quick" else 60, False)).execute())
         racy.append(Run(2, False, uv, 0, racy=racy_early_cancel(25 if tier == "quick" else 150, True)).execute())
+        racy.append(Run(1, False, uv, 0, racy=racy_early_native_cancel(10 if tier == "quick" else 60)).execute())
 
     cases = [r.model_case() for r in runs]
     expected = [clean(r.outs) for r in runs]
@@ -974,6 +1313,35 @@ def check(tier: str) -> int:
     for r in runs + racy:
         for f in r.flags:
             flags[f] = flags.get(f, 0) + 1
+    # recorded facts that are NOT violations (documented scope / design decisions), each with a corpus witness
+    obs_text = {
+        "native_cancel_defeats_non_abandon":
+            "DESIGN 11.4 / C14_native_cancel_defeats_non_abandon: a native Task.cancel() of an abandon_on_cancel=False caller "
+            "whose function runs releases its token at once; more functions of non-abandon calls than total_tokens then "
+            "execute (witness corpus/C14/obs_native_cancel_defeats_non_abandon.json)",
+        "native_cancel_interrupts_non_abandon_call":
+            "same scope: the natively cancelled non-abandon caller ends before its function finished, the result is dropped",
+        "abandoned_thread_check_cancelled_raises_but_from_thread_run_is_not_cancelled":
+            "after abandonment (caller gone) from_thread.check_cancelled() still raises (plain _parent_scope walk) while a "
+            "from_thread.run() coroutine is attached to the exited call scope, which has no visible parent since fix 1940035 "
+            "(F42): it is neither cancelled nor spinning (witness corpus/C14/f42_abandoned_thread_from_thread_run.json)",
+    }
+    observations = {}
+    for r in runs + racy:
+        for k, n in r.observations.items():
+            observations.setdefault(k, {"count": 0, "runs": 0, "meaning": obs_text.get(k, "")})
+            observations[k]["count"] += n
+            observations[k]["runs"] += 1
+    observations["from_thread_run_cancelled_under_cancelled_uninterruptible_caller"] = {
+        "runs": flags.get("rt_cancelled", 0) + flags.get("rt_in_finish_cancelled", 0),
+        "meaning": "from_thread.run(coroutine that waits) from the thread of an abandon_on_cancel=False call whose enclosing "
+                   "scope is (effectively) cancelled raises CancelledError (asyncio.CancelledError, a BaseException) in the "
+                   "thread instead of returning the value; from_thread.run_sync and non-waiting coroutines return normally.  "
+                   "Expected result = walk of the scopes visible from the handed scope (C14_from_thread_run_spec); judged "
+                   "against that, not exempted (witness corpus/C14/obs_from_thread_run_cancelled.json)"}
+    observations["StopIteration_is_wrapped_in_RuntimeError"] = {
+        "runs": flags.get("result_StopIteration", 0),
+        "meaning": "deviation from 'raises exactly the exception of the function': PEP 479, a Future cannot carry StopIteration"}
     interesting = {"limiter_wait", "cancel_while_running_abandon", "cancel_while_running_shielded",
                    "cancel_while_waiting_limiter", "cc_true", "result_dropped_abandoned", "deferred_cancel_result_returned"}
     distinct = len({tuple(c) for c, r in zip(cases, runs) if r.flags & interesting})
@@ -1009,6 +1377,10 @@ def check(tier: str) -> int:
         "corpus_model_witnesses": len(model_only),
         "uvloop_cases": sum(1 for r in runs + racy if r.uv),
         "reached": flags,
+        "observations_recorded_not_violations": observations,
+        "plan_ops_skipped_because_not_enabled": sum(r.skipped for r in runs),
+        "exhaustive_alphabet": "Scope (<=1 per call, unshielded), Call (abandon on/off), CancelCaller, CheckCancelled, "
+                               "NativeCancel, FinishCall kinds return/raise/propagate-check_cancelled",
         "op_distribution": opcount,
         "limiter_sizes": sizes,
         "max_live_functions_seen": max((r.max_live for r in runs), default=0),
@@ -1024,7 +1396,12 @@ def check(tier: str) -> int:
                  "cancel_while_waiting_limiter", "cancel_before_call", "cancel_hidden_by_shield", "cc_true", "cc_false",
                  "cc_true_shielded", "result_dropped_abandoned", "deferred_cancel_result_returned", "worker_reused",
                  "two_live_functions", "result_raise", "result_StopIteration", "result_from_thread.run",
-                 "result_from_thread.run_sync", "result_contextvar", "set_total"):
+                 "result_from_thread.run_sync", "result_contextvar", "set_total", "lowered_below_borrowed",
+                 "result_BaseException", "result_propagate check_cancelled", "function_cancellederror_propagated",
+                 "spawn_failed", "native_cancel_waiting_limiter", "native_cancel_running_non_abandon",
+                 "native_cancel_running_abandon", "native_cancel_in_limiter_checkpoint",
+                 "obs_native_cancel_defeats_non_abandon", "rt_cancelled", "rt_completed", "rt_in_finish_cancelled",
+                 "rt_after_abandon_not_cancelled"):
         if not flags.get(need):
             rep.notes.append(f"generator self-check: predicate {need} never reached")
     return rep.finish()
